@@ -279,6 +279,32 @@ def check_program(m, mod, res, case_base, truth):
                 res.violation(dict(case, subset=subset), {"what": "a probe on a subset of the events does not deliver the projection of the full stream", "subset": subset, **streams.first_diff(streams.sort_runs(sexp, params), streams.sort_runs(sgot, params))})
             res.count("subset_probes")
             res.count("subset_probe_events", len(sexp))
+        # (5) the delivery of the entry event itself fails (a second handler of f > #enter raises):
+        # the activation ends by raising, so the first probe still gets #error and #exit
+        if argi == 0:
+            from ptera import probing as _probing
+
+            class Boom(Exception):
+                pass
+
+            def boom(d):
+                raise Boom("entry handler fails")
+
+            first = []
+            try:
+                with _probing("f > #enter", "f > #error", "f > #exit", env=vars(mod), raw=True) as p1:
+                    p1.subscribe(lambda d: first.extend((c.name, type(c.value).__name__) for c in d.values()))
+                    with _probing("f > #enter", env=vars(mod)) as p2:
+                        p2.subscribe(boom)
+                        prorun.run_call(mod, mod.f, argi, m["script"])
+            except Exception as e:
+                res.violation(case, {"what": "exception in the failing-entry-handler run", "error": common.fmt_exc(e)[-800:]})
+                first = None
+            if first is not None:
+                res.deciding += 1
+                if first[:3] != [("#enter", "bool"), ("#error", "Boom"), ("#exit", "bool")]:
+                    res.violation(case, {"what": "an activation whose entry event handler raised did not deliver #enter, #error, #exit to the other probe", "got": first[:6]})
+                res.count("failing_entry_handler_runs")
         # wrapper probe
         res.deciding += 1
         wout = []
